@@ -77,8 +77,10 @@ def gen_history(rng, length, readonly_safe=False, valkeys=None, funcs=3):
             ops.append(["forget_all"])
         elif r < 0.81:
             ops.append(["list_fns"])
-        elif r < 0.88:
+        elif r < 0.86:
             ops.append(["list_mems", f])
+        elif r < 0.88:
+            ops.append(["list_mems_limit", f, rng.randint(1, 3)])
         elif r < 0.94:
             ops.append(["wmeta", f, a, META_KEYS[0] if rng.random() < 0.7 else META_KEYS[1], "m%d" % rng.randrange(4)])
         else:
@@ -136,6 +138,8 @@ class Model:
             return sorted({key[0] for key in self.d})
         if k == "list_mems":
             return sorted(key[1] for key in self.d if key[0] == op[1])
+        if k == "list_mems_limit":  # any min(limit, live) of the live entries
+            return [op[2], sorted(key[1] for key in self.d if key[0] == op[1])]
         if k == "wmeta":
             _, f, a, mk, mv = op
             e = self.d.get((f, a))
@@ -238,6 +242,9 @@ def apply_backend(backend, refs, vals, op, model_before=None):
         if k == "list_mems":
             return sorted(m.invocation_metadata.fn_reference_with_args.arg_hash
                           for m in backend.list_mementos(refs.refs[op[1]]))
+        if k == "list_mems_limit":
+            return sorted(m.invocation_metadata.fn_reference_with_args.arg_hash
+                          for m in backend.list_mementos(refs.refs[op[1]], limit=op[2]))
         if k == "wmeta":
             _, f, a, mk, mv = op
             if model_before is not None and (f, a) not in model_before:
@@ -277,6 +284,10 @@ def answers_agree(op, expected, got, refs, vals):
         return got == sorted(refs.qn[i] for i in expected)
     if k == "list_mems":
         return got == sorted(refs.ah[op[1]][a] for a in expected)
+    if k == "list_mems_limit":
+        limit, live = expected
+        live = {refs.ah[op[1]][a] for a in live}
+        return isinstance(got, list) and len(got) == min(limit, len(live)) and len(set(got)) == len(got) and set(got) <= live
     return expected == got
 
 
